@@ -89,6 +89,23 @@ PROGRAMS = {
                         ['let app = ::entrait::Impl::new(App(Inner));', 'rt::out("r", rt::block_on({TR}::h(&app, 1)));'], "2"),
 }
 
+# programs with mock derivations (compiled with the unimock crate feature and --cfg test): the derivations are part of the expansion
+MOCK_PROGRAMS = {
+    "fn_mock": ("#[::entrait::entrait(pub {TR}, mock_api = {TR}Mock)]\n    pub fn f1(deps: %s, target: i64, this: i64) -> i64 {{ target * 10 + this }}" % ANY,
+                ['let app = ::entrait::Impl::new(());', 'let m = ::unimock::Unimock::new_partial(());', 'rt::out("r", format!("{}|{}", app.f1(1, 2), m.f1(1, 2)));'], "12|12"),
+    "fn_mock_async": ("#[::entrait::entrait(pub {TR}, mock_api = {TR}Mock)]\n    pub async fn f2(deps: %s, target: i64, result: i64) -> i64 {{ target * 10 + result }}" % ANY,
+                      ['let app = ::entrait::Impl::new(());', 'let m = ::unimock::Unimock::new_partial(());',
+                       'rt::out("r", format!("{}|{}", rt::block_on(app.f2(1, 2)), rt::block_on(m.f2(1, 2))));'], "12|12"),
+    "mod_mock": ("#[::entrait::entrait(pub {TR}, mock_api = {TR}Mock)]\n    pub mod m {{\n        pub fn g1(deps: %s, target: i64) -> i64 {{ target }}\n    }}" % ANY,
+                 ['let app = ::entrait::Impl::new(());', 'let m = ::unimock::Unimock::new_partial(());', 'rt::out("r", format!("{}|{}", app.g1(1), m.g1(1)));'], "1|1"),
+    "trait_mock": ("#[::entrait::entrait]\n    pub trait {TR} {{ fn h1(&self, target: i64, this: i64) -> i64; }}\n"
+                   "    pub struct App;\n    impl {TR} for App {{ fn h1(&self, a: i64, b: i64) -> i64 {{ a * 10 + b }} }}",
+                   ['let app = ::entrait::Impl::new(App);', 'rt::out("r", {TR}::h1(&app, 1, 2));'], "12"),
+    "mockall_fn": ("#[::entrait::entrait(pub {TR}, mockall)]\n    pub fn f1(deps: %s, target: i64, this: i64) -> i64 {{ target * 10 + this }}" % ANY,
+                   ['let app = ::entrait::Impl::new(());', 'rt::out("r", app.f1(1, 2));'], "12"),
+}
+PROGRAMS.update(MOCK_PROGRAMS)
+
 DECOYS = {
     "t_Send": "pub trait Send {}", "t_Sync": "pub trait Sync {}", "t_Sized": "pub trait Sized {}", "t_Future": "pub trait Future {}",
     "t_AsRef": "pub trait AsRef<T: ?::core::marker::Sized> {}", "t_Borrow": "pub trait Borrow<T: ?::core::marker::Sized> {}", "t_Unpin": "pub trait Unpin {}",
@@ -114,8 +131,16 @@ BUILTIN_ATTRS = {"cfg_attr", "cfg", "allow", "doc"}
 
 def enumerate_states(tier):
     states = []
+    for prog in MOCK_PROGRAMS:
+        states.append(dict(key="h_%s_plain" % prog, prog=prog, scope="none", name="Tr", mock=True))
+        for st in STAMPS:
+            if prog == "trait_mock" and st in ("mr_attr_inside", "mr_item_inside"):
+                # the trait is the USER's tokens (one hygiene context), the derive is invoked from entrait's (another): what unimock's
+                # own expansion does with that pair is the third-party macro's business (it fails the same way when used directly)
+                continue
+            states.append(dict(key="h_%s_%s" % (prog, st), prog=prog, scope=st, name="Tr", mock=True))
     for prog in PROGRAMS:
-        if "async_trait" in PROGRAMS[prog][0]:
+        if "async_trait" in PROGRAMS[prog][0] or prog in MOCK_PROGRAMS:
             continue
         states.append(dict(key="h_%s_plain" % prog, prog=prog, scope="none", name="Tr"))
         for d in DECOYS:
@@ -130,7 +155,7 @@ def enumerate_states(tier):
     # programs that go through the third-party async_trait macro: its own expansion names `Box` relatively, so local
     # items called Box / Pin (and a trait named Box) are outside what entrait can promise
     for prog in PROGRAMS:
-        if "async_trait" not in PROGRAMS[prog][0]:
+        if "async_trait" not in PROGRAMS[prog][0] or prog in MOCK_PROGRAMS:
             continue
         states.append(dict(key="h_%s_plain" % prog, prog=prog, scope="none", name="Tr"))
         for d in DECOYS:
@@ -189,7 +214,7 @@ def stamp(items, how):
         return False
     vals = {}
     if how in ("mr_tr", "mr_both"):
-        for text, var, val in ((r"Delegate\{TR\}", "dtr", "Delegate{TR}"), (r"\{TR\}Impl", "tri", "{TR}Impl"), (r"\{TR\}", "tr", "{TR}")):
+        for text, var, val in ((r"Delegate\{TR\}", "dtr", "Delegate{TR}"), (r"\{TR\}Impl", "tri", "{TR}Impl"), (r"\{TR\}Mock", "trm", "{TR}Mock"), (r"\{TR\}", "tr", "{TR}")):
             if arg(text, var):
                 vals[var] = val
     if how in ("mr_idents", "mr_both"):
@@ -226,6 +251,8 @@ def render(s):
 def no_std_source():
     L = ["#![no_std]", "#![allow(warnings)]"]
     for prog, (items, client, exp) in PROGRAMS.items():
+        if prog in MOCK_PROGRAMS:
+            continue
         if "async_trait" in items:
             continue   # async_trait itself needs alloc (Box): dynamic + async is outside the no_std claim
         L.append("pub mod p_%s {" % prog)
@@ -279,8 +306,13 @@ def generated_part(rec):
 def evaluate(states, report, tier):
     normal = [s for s in states if s["scope"] not in ("no_std", "only_dep")]
     units = [render(s) for s in normal]
-    results, stats = engine.execute(units, feature=False, mode="run")
-    report.phases.append(dict(stats))
+    results = {}
+    for mock in (False, True):
+        group = [u for s, u in zip(normal, units) if bool(s.get("mock")) == mock]
+        if group:
+            res, stats = engine.execute(group, feature=mock, mode="run", cfg_test=mock)
+            results.update(res)
+            report.phases.append(dict(stats, feature=mock, cfg_test=mock))
     # structural scan requests
     reqs, keys = [], []
     for s in normal:
@@ -328,7 +360,7 @@ def evaluate(states, report, tier):
                        nontrivial=(s["scope"] != "none" or s["name"] != "Tr"), sample=dict(source=u.src), evals=2 + len(res.records))
         for sig, detail in problems:
             tags = {"prog:" + s["prog"], "scope:" + s["scope"], "name:" + s["name"]}
-            report.violation(s["key"], tags, sig, detail, state=s, source=engine.standalone_source(u), meta=dict(mode="run"))
+            report.violation(s["key"], tags, sig, detail, state=s, source=engine.standalone_source(u), meta=dict(mode="run", feature=bool(s.get("mock")), cfg_test=bool(s.get("mock"))))
     # ---- #![no_std] library crate containing every input mode
     for s in [x for x in states if x["scope"] == "no_std"]:
         art = engine.build_subject(False)
